@@ -606,7 +606,17 @@ class RecurrencePlot(Cached):
                                                         recurrence_rate)
         recurrence = np.zeros((n_time, n_time), dtype="int8")
         recurrence[distance < threshold] = 1
+        self._clear_missing_values(recurrence)
         self.R = recurrence
+
+    def _clear_missing_values(self, recurrence):
+        """
+        Write missing value lines and rows to recurrence matrix
+        (NaN flag is not supported by int8 data format -> use 0 here).
+        """
+        if self.missing_values:
+            recurrence[self.missing_value_indices, :] = 0
+            recurrence[:, self.missing_value_indices] = 0
 
     def set_fixed_local_recurrence_rate(self, local_recurrence_rate):
         """
@@ -635,6 +645,7 @@ class RecurrencePlot(Cached):
                 distance[i, :], local_recurrence_rate)
             #  Thresholding the distance matrix for column i
             recurrence[i, distance[i, :] < local_threshold] = 1
+        self._clear_missing_values(recurrence)
         self.R = recurrence
 
     def set_adaptive_neighborhood_size(self, adaptive_neighborhood_size,
@@ -683,6 +694,7 @@ class RecurrencePlot(Cached):
 
         _set_adaptive_neighborhood_size(n_time, adaptive_neighborhood_size,
                                         sorted_neighbors, order, recurrence)
+        self._clear_missing_values(recurrence)
         self.R = recurrence
 
     @staticmethod
